@@ -6,6 +6,14 @@ struct Holder {
     const std::string &name;
     explicit Holder(const std::string &n) : name(n) {}
 };
+struct ByValueHolder {
+    const std::string &name;
+    explicit ByValueHolder(std::string n) : name(n) {}   // R07b (by-value parameter)
+};
+inline std::size_t dangling2(const std::string &s) {
+    ByValueHolder h(s);
+    return h.name.size();
+}
 inline std::size_t dangling() {
     Holder h(std::string("temporary"));   // R07b
     return h.name.size();
@@ -14,4 +22,4 @@ inline int past_end(const std::vector<int> &v) {
     return *(v.end());                    // R07d
 }
 }
-int use_c07() { return (int) positive::dangling() + positive::past_end(std::vector<int>()); }
+int use_c07() { return (int) positive::dangling() + positive::dangling2("x") + positive::past_end(std::vector<int>()); }
